@@ -12,6 +12,7 @@ type Parser struct {
 	errors    []string
 
 	unsupported bool
+	clauses     int // update clauses that had at least one action so far
 
 	prefixParseFns map[TokenType]prefixParseFn
 	infixParseFns  map[TokenType]infixParseFn
@@ -150,10 +151,24 @@ func (p *Parser) ParseConditionalExpression() *ConditionalExpression {
 		return stmt
 	}
 
+	if p.curToken.Type == EOF {
+		p.errors = append(p.errors, "Syntax error; the expression is empty")
+
+		return stmt
+	}
+
+	expressions := 0
+
 	for p.curToken.Type != EOF {
 		stmt.Expression = p.parseExpression(precedenceValueLowset)
+		expressions++
 
 		p.nextToken()
+	}
+
+	if expressions > 1 && len(p.errors) == 0 {
+		// a condition is exactly one expression; juxtaposed expressions are not a sentence
+		p.errors = append(p.errors, "Syntax error; unexpected token after the end of the expression")
 	}
 
 	return stmt
@@ -314,10 +329,18 @@ func (p *Parser) parseCallArguments() []Expression {
 func (p *Parser) ParseUpdateExpression() *UpdateStatement {
 	stmt := &UpdateStatement{Token: p.curToken}
 
+	expressions := 0
+
 	for p.curToken.Type != EOF {
 		stmt.Expression = p.parseExpression(precedenceValueLowset)
+		expressions++
 
 		p.nextToken()
+	}
+
+	if expressions > 1 && len(p.errors) == 0 {
+		// an update expression is one sequence of clauses; anything juxtaposed to it is not a sentence
+		p.errors = append(p.errors, "Syntax error; unexpected token outside of the update clauses")
 	}
 
 	return stmt
@@ -364,8 +387,15 @@ func (p *Parser) parseActions(token Token) []Expression {
 	actions := []Expression{}
 
 	if p.peekTokenIs(EOF) {
+		if p.clauses > 0 {
+			// a trailing clause keyword without actions, e.g. "REMOVE a SET"
+			p.errors = append(p.errors, fmt.Sprintf("Syntax error; %s clause must have at least one action", token.Type))
+		}
+
 		return actions
 	}
+
+	p.clauses++
 
 	p.nextToken()
 
